@@ -125,6 +125,29 @@ func runC16(c c16Case) (res string) {
 			if int(l) != c.N {
 				return fmt.Sprintf("Len()=%d want %d", l, c.N)
 			}
+			// Len after further mutations (one, two, three of them; then back)
+			want := c.N
+			for step := 0; step < 6; step++ {
+				k := []byte(fmt.Sprintf("~extra%d", step%3))
+				if step < 3 {
+					if err := col.SetItem(&gkvlite.Item{Key: k, Val: []byte("x"), Priority: int32(step)}); err != nil {
+						return "set: " + err.Error()
+					}
+					want++
+				} else {
+					if _, err := col.Delete(k); err != nil {
+						return "delete: " + err.Error()
+					}
+					want--
+				}
+				l, err := col.Len()
+				if err != nil {
+					return "Len error: " + err.Error()
+				}
+				if int(l) != want {
+					return fmt.Sprintf("after %d further mutation(s): Len()=%d want %d", step+1, l, want)
+				}
+			}
 			return ""
 		}
 		count := map[string]int{}
